@@ -6,4 +6,10 @@ def jobs(tier, ctx):
                         targets=['load_binary', 'check_times'], timeout=300, mem_gb=8, opt_witness=['binary_accepted', 'binary_refused'],
                         desc='load_binary with symbolic mtimes of binary / source / %s, stored magic, driver id, config id and name: the program image is only read when every dependency is not newer and the ids and name match' % ('one include' if inc else 'no include'),
                         inputs='mtimes, existence flags, stored ids, outcome of open/fstat/fdopen', assumptions=['file system and stdio are stubs; inherited programs, equality of the loaded program with a fresh compile and relocation are outside']))
+    out.append(dict(name='stale_gate.inherit', srcs=['@harness/C17/stale_gate.c'], stubs=BASE, defs=['HAS_INC=0', 'HAS_INH=1', 'VMW_HAVE_NOTHING=1', 'VERIF_NO_XALLOC=1'], unwind=12, nobody_ok=['*'],
+                    unwindset=['fread.0:%d' % 400, 'name_is.0:9'],
+                    targets=['load_binary', 'check_times'], timeout=300, mem_gb=8, opt_witness=['binary_accepted', 'binary_refused', 'inherited_binary_present'],
+                    desc='load_binary of a program that inherits one program: the inherited program is only looked up (binary accepted) when the inherited source exists and is not newer and the inherited program\'s own saved binary, if present under SaveBinaryDir (configured with a leading slash), is not newer than this binary',
+                    inputs='mtimes and existence of source, inherited source, inherited saved binary; ids',
+                    assumptions=['file system and stdio are stubs; one inherit entry; the program image is a zeroed program_t with the inherit table behind it', 'equality of the loaded program with a fresh compile and relocation are outside']))
     return out
